@@ -611,6 +611,57 @@ class _Canon(ast.NodeTransformer):
                 if not done_:
                     fu.append(st)
             out = fu
+        # S51 collect-then-extend:  t = []; [if C:] t.append(E) ...; X.extend(t)   ->   [if C:] X.append(E) ...
+        # t is a fresh local used nowhere else; every E and C is pure and does not mention X (so it does not matter that X now grows
+        # between their evaluations), nothing else happens between the binding and the extend.
+        fn51 = getattr(self, 'fn', None)
+        if fn51 is not None:
+            i51 = 0
+            while i51 < len(out):
+                st = out[i51]
+                if isinstance(st, ast.Assign) and len(st.targets) == 1 and isinstance(st.targets[0], ast.Name) \
+                        and isinstance(st.value, ast.List) and not st.value.elts and st.targets[0].id not in self.ref_names:
+                    t51 = st.targets[0].id
+                    j51 = None
+                    for j in range(i51 + 1, len(out)):
+                        e_ = out[j]
+                        if isinstance(e_, ast.Expr) and isinstance(e_.value, ast.Call) and isinstance(e_.value.func, ast.Attribute) \
+                                and e_.value.func.attr == 'extend' and len(e_.value.args) == 1 and not e_.value.keywords \
+                                and isinstance(e_.value.args[0], ast.Name) and e_.value.args[0].id == t51 and _pure(e_.value.func.value):
+                            j51 = j
+                            break
+                    if j51 is not None:
+                        xs51 = U(out[j51].value.func.value)
+                        n_app = [0]
+
+                        def only_appends(blk):
+                            for b_ in blk:
+                                if isinstance(b_, ast.Expr) and isinstance(b_.value, ast.Call) and isinstance(b_.value.func, ast.Attribute) \
+                                        and b_.value.func.attr == 'append' and isinstance(b_.value.func.value, ast.Name) \
+                                        and b_.value.func.value.id == t51 and len(b_.value.args) == 1 and not b_.value.keywords \
+                                        and _pure(b_.value.args[0]) and xs51 not in U(b_.value.args[0]) and t51 not in \
+                                        {y.id for y in ast.walk(b_.value.args[0]) if isinstance(y, ast.Name)}:
+                                    n_app[0] += 1
+                                elif isinstance(b_, ast.If) and _pure(b_.test) and xs51 not in U(b_.test) \
+                                        and t51 not in {y.id for y in ast.walk(b_.test) if isinstance(y, ast.Name)} \
+                                        and only_appends(b_.body) and only_appends(b_.orelse):
+                                    pass
+                                else:
+                                    return False
+                            return True
+                        total = sum(1 for y in ast.walk(fn51) if isinstance(y, ast.Name) and y.id == t51)
+                        if only_appends(out[i51 + 1:j51]) and n_app[0] >= 1 and total == n_app[0] + 2:
+                            import copy as _c51
+                            for b_ in out[i51 + 1:j51]:
+                                for y in ast.walk(b_):
+                                    if isinstance(y, ast.Call) and isinstance(y.func, ast.Attribute) and y.func.attr == 'append' \
+                                            and isinstance(y.func.value, ast.Name) and y.func.value.id == t51:
+                                        y.func.value = _c51.deepcopy(out[j51].value.func.value)
+                            self.steps.append('S51 collect-then-extend of ' + t51)
+                            del out[j51]
+                            del out[i51]
+                            continue
+                i51 += 1
         # S50 open-an-empty-group-then-fill:
         #     if C: ...; X.append({.., K: [], ..}); ...      X[-1][K].append(V)
         # ->  if C: ...; X.append({.., K: [V], ..}); ...     else: X[-1][K].append(V)
